@@ -25,11 +25,11 @@ import (
 	cryptotypes "github.com/cosmos/cosmos-sdk/crypto/types"
 	simtestutil "github.com/cosmos/cosmos-sdk/testutil/sims"
 	sdk "github.com/cosmos/cosmos-sdk/types"
-	gogoproto "github.com/cosmos/gogoproto/proto"
 	"github.com/cosmos/cosmos-sdk/types/tx/signing"
 	authsigning "github.com/cosmos/cosmos-sdk/x/auth/signing"
 	authtypes "github.com/cosmos/cosmos-sdk/x/auth/types"
 	banktypes "github.com/cosmos/cosmos-sdk/x/bank/types"
+	gogoproto "github.com/cosmos/gogoproto/proto"
 
 	"github.com/medibloc/panacea-core/v2/app"
 )
@@ -44,7 +44,7 @@ var (
 		}
 		return "/verif/.scratch"
 	}()
-	BaseTime   = time.Date(2030, 1, 1, 0, 0, 0, 0, time.UTC)
+	BaseTime = time.Date(2030, 1, 1, 0, 0, 0, 0, time.UTC)
 )
 
 // Init seals the bech32 configuration ("panacea" prefix). Safe to call repeatedly.
@@ -72,25 +72,25 @@ func NewAccount(name string) *Account {
 
 // Options configure a fresh World.
 type Options struct {
-	Accounts []*Account           // funded genesis accounts
+	Accounts   []*Account                                           // funded genesis accounts
 	Mutate     func(gs map[string]json.RawMessage, cdc codec.Codec) // optional genesis mutation hook
-	DB         dbm.DB                                     // default MemDB
-	Upgrades   int                                        // if >0: number of entries of app.Upgrades to keep ("old binary")
-	ExtraCoins sdk.Coins                                  // extra per-account coins
-	Home       string                                     // node home (default: one shared scratch home per process)
+	DB         dbm.DB                                               // default MemDB
+	Upgrades   int                                                  // if >0: number of entries of app.Upgrades to keep ("old binary")
+	ExtraCoins sdk.Coins                                            // extra per-account coins
+	Home       string                                               // node home (default: one shared scratch home per process)
 }
 
 // World wraps one application instance plus the driver state.
 type World struct {
-	App      *app.App
-	DB       dbm.DB
-	Home     string
-	Height   int64 // height of the block currently open (or last committed if !InBlock)
-	InBlock  bool
-	Opts     Options
-	ValSet   *tmtypes.ValidatorSet
-	LastHash []byte
-	Genesis  []byte // app state bytes used at InitChain
+	App           *app.App
+	DB            dbm.DB
+	Home          string
+	Height        int64 // height of the block currently open (or last committed if !InBlock)
+	InBlock       bool
+	Opts          Options
+	ValSet        *tmtypes.ValidatorSet
+	LastHash      []byte
+	Genesis       []byte // app state bytes used at InitChain
 	InitialHeight int64
 }
 
